@@ -91,6 +91,7 @@ type history struct {
 	First  []string `json:"first"` // tracks whose init segment is uploaded before any media, in this order
 	Tsbd   int      `json:"tsbd"`
 	Order  []upl    `json:"order"`
+	Shift  shift    `json:"shift"`
 	Pred   *pred    `json:"pred,omitempty"`
 }
 
@@ -104,6 +105,7 @@ type genLine struct {
 	NrTracks  int      `json:"nrTracks"`
 	ListedBad bool     `json:"listedBad"`
 	Tracks    []string `json:"tracks"`
+	Shift     shift    `json:"shift"`
 }
 
 const segSeconds = 2 // testpic_2s
@@ -169,7 +171,7 @@ func canonTracks(set map[string]bool) []string {
 }
 
 func fromGen(g genLine, id string) history {
-	h := history{ID: id, Src: "tlc", Tsbd: tsbdForWindow(g.W), Order: g.Order}
+	h := history{ID: id, Src: "tlc", Tsbd: tsbdForWindow(g.W), Order: g.Order, Shift: g.Shift}
 	late := map[string]bool{}
 	set := map[string]bool{}
 	for _, u := range g.Order {
@@ -193,6 +195,9 @@ func fromGen(g genLine, id string) history {
 	h.Pred = &pred{Panic: g.Panic, Mpd: g.Mpd, Latest: g.Latest, Started: g.Started, NrTracks: g.NrTracks, ListedBad: g.ListedBad}
 	normalize(&h)
 	h.Class = classify(&h, g.W)
+	if !h.Shift.none() {
+		h.Class += "+shiftcfg"
+	}
 	return h
 }
 
@@ -362,7 +367,7 @@ func Main(args []string) error {
 	}
 	for _, h := range hs {
 		st.ByClass[h.Class]++
-		sig := fmt.Sprintf("%d|%v|%v", h.Tsbd, h.First, h.Order)
+		sig := fmt.Sprintf("%d|%v|%v|%v", h.Tsbd, h.First, h.Order, h.Shift)
 		st.distinct[sig] = true
 		if len(st.samples) < 8 && (len(st.samples) == 0 || h.Class != "plain") {
 			st.samples = append(st.samples, fmt.Sprintf("%s class=%s tsbd=%d first=%v order=%s", h.ID, h.Class, h.Tsbd, h.First, orderStr(h.Order)))
@@ -647,6 +652,6 @@ func header(lib *segLib, h *history) tr.E {
 	mdur := lib.masterDur()
 	window := h.Tsbd*mts/mdur + 1
 	return tr.E{"ev": "hdr", "hid": h.ID, "class": h.Class, "src": h.Src, "tsbd": h.Tsbd, "masterTs": mts, "masterDur": mdur,
-		"window": window, "maxBuf": window + 1, "initWindow": 8, "unshifted": true, "tracks": tracks,
+		"window": window, "maxBuf": window + 1, "initWindow": 8, "unshifted": h.Shift.none(), "shift": h.Shift, "tracks": tracks,
 		"names": h.Tracks, "nUploads": len(h.Order), "order": orderStr(h.Order)}
 }
